@@ -40,7 +40,7 @@ REQUIRED_THEOREMS = [
         "C05_gen_oneSew3", "C05_gen_oneUnsew3", "C05_gen_twoSew3", "C05_gen_twoUnsew3", "C05_gen_sews_topology", "C05_gen_unsews_topology",
         # Props/C05Gen3.lean: the translated CMap3::three_sew / three_unsew (skeleton, both for-loops, filter closures) ARE the model's
         "C05_gen_threeSewCollect_step", "C05_gen_threeUnsewLoop_step", "C05_gen_threeSewCollect", "C05_gen_threeUnsewLoop",
-        "C05_gen_threeSew3", "C05_gen_threeUnsew3", "C05_gen_three_sews_topology", "condAllS_keepPair",
+        "C05_gen_threeSew3", "C05_gen_threeUnsew3", "C05_gen_three_sews_topology", "condAllS_keepPair", "C18_gen_attr_loops",
     "C05_oneSew3_topology", "C05_twoSew3_topology", "C05_threeSew3_topology",
     "C05_oneUnsew3_topology", "C05_twoUnsew3_topology", "C05_threeUnsew3_topology",
     "C05_links_keep_data", "C05_oneSew3_effect", "C05_oneUnsew3_effect",
@@ -58,9 +58,9 @@ REQUIRED_THEOREMS = [
 ]
 
 SPEC = {
-    "lean_modules": ["Honeycomb.Props.C05", "Honeycomb.Props.C05Cells", "Honeycomb.Props.C05Cells2", "Honeycomb.Props.C05Succ", "Honeycomb.Props.C05Cells3", "Honeycomb.Props.C05SuccLaw", "Honeycomb.Props.C05Cells3Data", "Honeycomb.Props.C04Gen", "Honeycomb.Props.C05Gen", "Honeycomb.Props.C05Gen3"],
+    "lean_modules": ["Honeycomb.Props.C05", "Honeycomb.Props.C05Cells", "Honeycomb.Props.C05Cells2", "Honeycomb.Props.C05Succ", "Honeycomb.Props.C05Cells3", "Honeycomb.Props.C05SuccLaw", "Honeycomb.Props.C05Cells3Data", "Honeycomb.Props.C04Gen", "Honeycomb.Props.C05Gen", "Honeycomb.Props.C05Gen3", "Honeycomb.Props.C18Gen"],
     # Gen/AttrMoves.lean is re-translated from attributes/collections.rs, Gen/Sews3.lean from dim3/sews/one.rs and two.rs before every build
-    "gen": ["attrs", "sews3", "sews3c"],
+    "gen": ["attrs", "sews3", "sews3c", "alloc"],
     "required_theorems": REQUIRED_THEOREMS,
     "trusted_base": [
         "Lean 4.33 kernel; axioms propext, Classical.choice, Quot.sound only",
